@@ -149,6 +149,19 @@ class Base:
                 self.report('allocate-table-differs-from-reference', site, ev,
                             missing=gone, extra=extra,
                             outcome=ctx.get('outcome'))
+            elif kind == 'reset':
+                # initialize() is the documented reset of the pool's OWN
+                # addresses; anything else it removes is a release by a
+                # non-owner
+                if gone:
+                    self.report('initialize-removed-entry-outside-its-network',
+                                site, ev, removed=gone,
+                                network=ctx.get('network'),
+                                removed_live=[o in self.live
+                                              for _e, o in gone])
+                if extra:
+                    self.report('initialize-kept-entry-of-its-network', site,
+                                ev, kept=extra, network=ctx.get('network'))
             else:
                 self.report('listing-differs-from-reference', site, ev,
                             missing=gone, extra=extra)
@@ -313,7 +326,8 @@ class VipWorld(Base):
             expected = {e: o for e, o in self.ref.items()
                         if not self.in_net(e)}
             self.stats['init'] += 1
-            self.settle(ev, 'VipMgr.initialize', 'reset', expected)
+            self.settle(ev, 'VipMgr.initialize', 'reset', expected,
+                        network=self.cfg['cidr'])
         else:
             raise statex.HarnessError('unknown event %r' % (ev,))
 
@@ -337,6 +351,105 @@ def vip_cfg(cidr, owners, picks):
     evs += [('gc',), ('init',)]
     return {'kind': 'vip', 'cidr': cidr, 'owners': list(owners),
             'picks': list(picks), 'events': evs}
+
+
+# ---------------------------------------------------------------------------
+class VipPoolsWorld(Base):
+    """Several real VipMgr pools with disjoint CIDRs sharing ONE vips
+    directory and one owners directory (the way warpgate/policy_server
+    _init_networks sets them up).  The reference table is the one directory;
+    every operation is judged against the pool it was issued on: alloc(pool)
+    hands out a free host of THAT pool's network, initialize(pool) may remove
+    only addresses of THAT pool's network."""
+    KIND = 'vips'
+
+    def __init__(self, cfg):
+        super().__init__(cfg)
+        self.owner_dir = os.path.join(self.dir, 'sessions')
+        self.table_dir = os.path.join(self.dir, 'vips')
+        os.mkdir(self.owner_dir)
+        self.nets = [ipaddress.IPv4Network(c) for c in cfg['cidrs']]
+        self.hosts = [[str(h) for h in n.hosts()] for n in self.nets]
+        self.mgrs = [vipfile.VipMgr(c, self.table_dir, self.owner_dir)
+                     for c in cfg['cidrs']]
+        for o in cfg['owners']:
+            self.appear(o)
+
+    def apply(self, ev):
+        if self.common_event(ev):
+            return
+        kind = ev[0]
+        if kind == 'alloc':
+            k, o = ev[1], ev[2]
+            site = 'VipMgr.alloc'
+            out = call(self.mgrs[k].alloc, o)
+            free = [h for h in self.hosts[k] if h not in self.ref]
+            expected = dict(self.ref)
+            if out[0] == 'ok':
+                ip = out[1]
+                if ipaddress.IPv4Address(ip) not in self.nets[k]:
+                    self.report('allocated-ip-outside-network', site, ev,
+                                ip=ip, cidr=self.cfg['cidrs'][k])
+                if ip in self.ref:
+                    self.report('allocate-succeeded-on-entry-held-by-other',
+                                site, ev, entry=ip, holder=self.ref[ip],
+                                caller=o,
+                                holder_live=self.ref[ip] in self.live)
+                else:
+                    expected[ip] = o
+                self.stats['alloc_any_ok'] += 1
+                if any(e not in self.hosts[k] for e in self.ref):
+                    self.stats['alloc_next_to_other_pool'] += 1
+            elif free:
+                self.report('allocate-refused-although-free', site, ev,
+                            free=free, owner=o, outcome=out)
+            else:
+                self.stats['alloc_exhausted'] += 1
+            self.settle(ev, site, 'allocate', expected, outcome=out)
+        elif kind == 'free':
+            k, o, ip = ev[1], ev[2], ev[3]
+            out = call(self.mgrs[k].free, o, ip)
+            self.check_release(ev, 'VipMgr.free', [ip], o, out)
+        elif kind == 'gc':
+            out = call(self.mgrs[ev[1]].garbage_collect)
+            self.check_gc(ev, 'VipMgr.garbage_collect', out)
+        elif kind == 'init':
+            k = ev[1]
+            call(self.mgrs[k].initialize)
+            expected = {e: o for e, o in self.ref.items()
+                        if ipaddress.IPv4Address(e) not in self.nets[k]}
+            self.stats['init'] += 1
+            if expected:
+                self.stats['init_while_other_pool_holds'] += 1
+            if any(o in self.live for o in expected.values()):
+                self.stats['init_while_other_pool_has_live_owner'] += 1
+            self.settle(ev, 'VipMgr.initialize', 'reset', expected,
+                        network=self.cfg['cidrs'][k])
+        else:
+            raise statex.HarnessError('unknown event %r' % (ev,))
+
+    def enabled(self):
+        return self.cfg['events']
+
+
+def vip_pools_cfg(cidrs, owners):
+    evs = []
+    firsts = [str(next(ipaddress.IPv4Network(c).hosts())) for c in cidrs]
+    for k in range(len(cidrs)):
+        for o in owners:
+            evs.append(('alloc', k, o))
+    for k in range(len(cidrs)):
+        evs.append(('init', k))
+    for k in range(len(cidrs)):
+        for o in owners:
+            for ip in firsts:
+                evs.append(('free', k, o, ip))
+    for o in owners:
+        evs.append(('vanish', o))
+        evs.append(('appear', o))
+    evs.append(('gc', 0))
+    return {'kind': 'vips', 'cidrs': list(cidrs), 'owners': list(owners),
+            'events': evs}
 
 
 # ---------------------------------------------------------------------------
@@ -749,7 +862,7 @@ def netsvc_cfg(cidr, n):
             'events': None}
 
 
-WORLDS = {'vip': VipWorld, 'rule': RuleWorld, 'spec': SpecWorld,
+WORLDS = {'vip': VipWorld, 'vips': VipPoolsWorld, 'rule': RuleWorld, 'spec': SpecWorld,
           'netsvc': NetSvcWorld}
 
 
